@@ -15,3 +15,9 @@ import (
 func (t *Miner) VerifPackBlock(ctx xctx.XContext, height int64, now time.Time, consData []byte) (*lpb.InternalBlock, error) {
 	return t.packBlock(ctx, height, now, consData)
 }
+
+// VerifTrySyncBlock exposes trySyncBlock (target == nil: the miner's own catch-up, the target is taken from
+// the peers' GET_BLOCKCHAINSTATUS answers) to the verification harness.
+func (t *Miner) VerifTrySyncBlock(ctx xctx.XContext, target *lpb.InternalBlock) error {
+	return t.trySyncBlock(ctx, target)
+}
